@@ -30,7 +30,8 @@ def run(ctx):
                       patterns='ABAB.., BABA.., A then B, B once / A to the end / B abandoned, A once / B to the end / A to the end', unwind='library loops 7')
     ctx.assumptions += ['operator new never fails', 'the graph is built by the harness as build.cc builds it (parser/builder not encoded)',
                         'zw_result / zw_query_execute themselves are exercised in the C14 API kernel; cache.cc (DWARF value reuse) is not covered']
-    chunk = 3 if ctx.tier == 'quick' else 5
+    chunk = 3
+    to = 900 if ctx.tier == 'quick' else 3000      # thorough: 540 runs of 3 scenarios; a run takes 2-10 min when all cores are busy
     ctx.bounds['tier_selection'] = ('quick: 3 range pairs x 3 patterns x 4 count vectors = 36 scenarios per graph' if ctx.tier == 'quick' else 'all scenarios')
     jobs = []
     for e in ['c12_alt2', 'c12_or2', 'c12_subx']:
@@ -38,7 +39,7 @@ def run(ctx):
             continue
         n = 36 if ctx.tier == 'quick' else 9 * 5 * (2 ** (4 if e != 'c12_subx' else 2))
         for lo in range(0, n, chunk):
-            jobs.append(lambda e=e, lo=lo: V.run_entry(ctx, m, e, 7, timeout=900, bounds='scenarios [%d,%d)' % (lo, lo + chunk), object_bits=14, tv_seeds=0,
+            jobs.append(lambda e=e, lo=lo: V.run_entry(ctx, m, e, 7, timeout=to, bounds='scenarios [%d,%d)' % (lo, lo + chunk), object_bits=14, tv_seeds=0,
                                                        harness_unwind=chunk + 20, cdefs=('VP_LO=%d' % lo, 'VP_HI=%d' % (lo + chunk)),
                                                        label='%s[%d:%d]' % (e, lo, lo + chunk)))
     if not ctx.only or 'c12_seq_copy' in ctx.only:
